@@ -643,6 +643,100 @@ def rsoup(r, depth=0):
 
 
 # ------------------------------------------------------------------------------------------------
+# histories: several loaded flows that share EQUAL nested values; one of them is changed, the others must not notice
+# ------------------------------------------------------------------------------------------------
+HIST_OPS = ["revert", "set_state", "cert_inplace", "conn_set_state", "headers", "messages", "addr", "metadata", "backup_then_edit"]
+
+
+def _fresh_cert(i):
+    ps = pems()
+    return certs.Cert.from_pem(ps[i % len(ps)].to_pem()) if ps else None
+
+
+def build_hist(case):
+    """-> flows (to be written), donors (same types, different nested values), plan {victim, ops, second_load}.
+    All flows of the file carry EQUAL (not identical) certs, addresses, header lists; flows may carry a backup whose
+    nested values differ from the current ones."""
+    r = random.Random(case["seed"])
+    n = r.choice([2, 2, 3, 4])
+    types = case.get("types") or [r.choice(FLOW_TYPES) for _ in range(n)]
+    x, y = r.sample(range(max(2, len(pems()))), 2) if len(pems()) >= 2 else (0, 0)
+    shared_addr = raddr(r)
+    shared_hdr = [(b"host", b"example.com"), (b"set-cookie", rbytes(r, 8)), (b"x-shared", b"1")]
+
+    def dress(f, ci, salt):
+        cc, sc = f.client_conn, f.server_conn
+        cc.mitmcert = _fresh_cert(ci)
+        cc.certificate_list = [_fresh_cert(ci), _fresh_cert(ci + 1)]
+        sc.certificate_list = [_fresh_cert(ci + 1), _fresh_cert(ci)]
+        cc.peername = shared_addr; cc.sockname = shared_addr
+        sc.peername = shared_addr; sc.sockname = shared_addr
+        cc.alpn_offers = [b"h2", b"http/1.1"]; sc.alpn_offers = [b"h2", b"http/1.1"]
+        cc.cipher_list = ["A", "B"]; sc.cipher_list = ["A", "B"]
+        if hasattr(f, "request") and isinstance(getattr(f, "request", None), http.Request):
+            f.request.headers = http.Headers(list(shared_hdr))
+            if f.response is not None: f.response.headers = http.Headers(list(shared_hdr))
+        f.metadata = {"shared": [1, [2, 3], {"k": b"v"}], "salt": salt}
+
+    flows, donors = [], []
+    for i, t in enumerate(types):
+        f = build_flow({"t": t, "seed": r.getrandbits(48), "plain": r.random() < 0.5})
+        f._backup = None
+        if case.get("backups", 1) and r.random() < 0.6:
+            dress(f, y, "old")                  # what the flow looked like when it was backed up …
+            f.backup()
+        dress(f, x, "cur")                      # … and what it looks like now
+        if f._backup is not None: f.comment = (f.comment or "") + " (edited)"
+        flows.append(f)
+        d = build_flow({"t": t, "seed": r.getrandbits(48), "plain": 0})
+        d._backup = None
+        dress(d, y, "donor")
+        donors.append(d)
+    plan = {"victim": case.get("victim", r.randrange(len(flows))),
+            "ops": case.get("ops") or [r.choice(HIST_OPS) for _ in range(r.choice([1, 1, 2, 3]))],
+            "y": y}
+    return flows, donors, plan
+
+
+def apply_hist_op(op, f, donor, y):
+    """an ordinary user/addon action on ONE loaded flow"""
+    if op == "revert":
+        f.revert()
+    elif op == "set_state":
+        st = donor.get_state(); st["id"] = f.id
+        f.set_state(st)
+    elif op == "cert_inplace":
+        for c in [f.client_conn.mitmcert] + list(f.client_conn.certificate_list) + list(f.server_conn.certificate_list):
+            if c is not None: c.set_state(_fresh_cert(y).to_pem())
+    elif op == "conn_set_state":
+        f.client_conn.set_state(donor.client_conn.get_state())
+        f.server_conn.set_state(donor.server_conn.get_state())
+    elif op == "headers":
+        if isinstance(getattr(f, "request", None), http.Request):
+            f.request.headers["x-shared"] = "changed"
+            f.request.headers.set_state(((b"only", b"one"),))
+            if f.response is not None:
+                f.response.headers.add("set-cookie", "again"); f.response.content = b"changed body"
+        else:
+            f.comment = "changed"
+    elif op == "messages":
+        msgs = getattr(f, "messages", None) or (f.websocket.messages if getattr(f, "websocket", None) else None)
+        if msgs: msgs[0].content = b"changed"; msgs.append(msgs[0])
+        elif hasattr(f, "request") and hasattr(f.request, "questions"): f.request.questions.clear(); f.request.id = 7
+        else: f.marked = ":changed:"
+    elif op == "addr":
+        f.client_conn.peername = ("203.0.113.7", 1); f.client_conn.sockname = ("203.0.113.8", 2)
+        f.server_conn.peername = ("203.0.113.9", 3); f.server_conn.cipher_list.append("C") if isinstance(f.server_conn.cipher_list, list) else None
+        f.client_conn.alpn_offers = list(f.client_conn.alpn_offers) + [b"changed"]
+    elif op == "metadata":
+        f.metadata["shared"][1].append(99); f.metadata["shared"][2]["k"] = b"changed"; f.metadata["new"] = 1
+    elif op == "backup_then_edit":
+        f.backup(); f.comment = "edited again"
+        if f.client_conn.mitmcert is not None: f.client_conn.mitmcert = _fresh_cert(y)
+        f.revert()
+
+
+# ------------------------------------------------------------------------------------------------
 BIG = 10 ** 13          # "no allocation limit" for in-memory files
 D_NORMAL = 100          # recursion head-room handed to the model for shallow inputs (real head-room is larger)
 
@@ -690,7 +784,12 @@ class Check(PropertyCheck):
             "tnetstring-shaped soups with seeded defects (signed/padded/underscored lengths, literal grammars, UTF-8 edge "
             "cases, unhashable keys, wrong tags) and random bytes; deep: nesting around the measured recursion limit; flows: "
             "1-4 flows of random types with every serialised field randomised, written with FlowWriter and read back; mut: "
-            "flow files after byte-level and state-level mutations, some through real files with huge length prefixes. "
+            "flow files after byte-level and state-level mutations, some through real files with huge length prefixes; hist: "
+            "2-4 flows of mixed types that carry EQUAL nested values (same certificate PEMs, address tuples, header lists, metadata), "
+            "some with a backup whose nested values differ, are written and loaded twice; ONE loaded flow then goes through 1-3 ordinary "
+            "actions (revert, set_state from a donor, in-place Cert.set_state, connection set_state, header / message / address / metadata "
+            "edits, backup+edit+revert) and every OTHER flow — in memory, saved and reloaded, from the second load, and from the original "
+            "file read once more in the same process — must still have the state that was written. "
             "distinct = distinct case content; non-trivial = non-empty input.")
     budget = {"quick": 6000, "thorough": 420000}
     time_budget = {"quick": 18, "thorough": 330}
@@ -764,6 +863,13 @@ class Check(PropertyCheck):
         need(self.oracle({"k": "flows"}, {**good, "read": [1, "clean"]}), "a flow lost")
         need(self.oracle({"k": "flows"}, {**good, "read": [2, "flowRead"]}), "an error after the flows of an intact file")
         need(self.oracle({"k": "flows"}, {**good, "read2": [2, "clean"], "equal2": [False, True]}), "second generation differs")
+        hgood = {"n": 2, "reads": [[2, "clean"], [2, "clean"]], "victim": 0, "ops": ["revert"],
+                 "checks": [["first load", 0, True, None], ["other flows of the same load, after the change", 1, True, None]]}
+        need(self.oracle({"k": "hist"}, hgood) == [], "a history that leaves the other flows alone")
+        need(self.oracle({"k": "hist"}, {**hgood, "checks": hgood["checks"] + [["the original file read again after the change", 1, False, "x"]]}),
+             "another flow changed by the history")
+        need(self.oracle({"k": "hist"}, {**hgood, "reads": [[2, "clean"], [2, "other:KeyError"]]}), "a later read escaping")
+        need(self.oracle({"k": "hist"}, {**hgood, "reads": [[1, "clean"], [2, "clean"]]}), "first load incomplete")
         need(self.on_timeout({"k": "raw"}), "a hang is a violation")
         # the allocation limit is taken from the run only for absurd length prefixes
         need(self._mem_limit(["err", "MemoryError"], b"99999999999:abc") == 99999999998, "huge prefix: limit inferred")
@@ -780,6 +886,7 @@ class Check(PropertyCheck):
             elif c < 0.45 * heavy: yield {"k": "mut", "specs": rspecs(rng, n=rng.choice([1, 1, 2, 3]), plain_p=0.5), "seed": seed,
                                           **({"file": 1} if rng.chance(0.03) else {})}
             elif c < 0.46 * heavy + 0.01: yield {"k": "deep", "seed": seed}
+            elif c < 0.46 * heavy + 0.07: yield {"k": "hist", "seed": seed}
             elif rng.chance(0.5): yield {"k": "val", "seed": seed}
             else: yield {"k": "raw", "seed": seed, **({"file": 1} if rng.chance(0.05) else {})}
 
@@ -788,6 +895,8 @@ class Check(PropertyCheck):
             yield {"k": "flows", "specs": [{"t": t, "seed": 1, "plain": 1}]}
             yield {"k": "flows", "specs": [{"t": t, "seed": 7}]}
         yield {"k": "flows", "specs": [{"t": t, "seed": 3} for t in FLOW_TYPES]}
+        for op in HIST_OPS:
+            yield {"k": "hist", "seed": 11, "ops": [op], "victim": 0}
         for e in ("pop", "load", "reader"):
             for delta in (-2, -1, 0, 1, 2, 40):
                 yield {"k": "deep", "entry": e, "delta": delta, "seed": 0}
@@ -897,6 +1006,58 @@ class Check(PropertyCheck):
             return {"read": res, "n": len(flows), "equal": ok, "diff": diff, "read2": res2, "equal2": ok2,
                     "records_hex": [hx(data[a:b]) for a, b in zip(bounds, bounds[1:])],
                     "wires": [to_wire(s) for s in states], "types": [s["type"] for s in states]}
+        if k == "hist":
+            flows, donors, plan = build_hist(case)
+            want = [state_canon(f.get_state()) for f in flows]          # what is written: the reference for every check below
+            raw_states = [f.get_state() for f in flows]
+            data, _ = write_flows(flows)
+            checks = []
+            def compare(stage, states, idxs):
+                for j, stt in zip(idxs, states):
+                    ok = state_canon(stt) == want[j]
+                    checks.append([stage, j, ok, None if ok else self.first_diff(raw_states[j], stt)])
+            def load(b):
+                res, states_ = [0, "clean"], None
+                fl = []
+                try:
+                    for f in FlowReader(io.BytesIO(b)).stream(): fl.append(f)
+                except exceptions.FlowReadException: res[1] = "flowRead"
+                except CaseTimeout: raise
+                except BaseException as e: res[1] = "other:" + type(e).__name__      # noqa
+                res[0] = len(fl)
+                return res, fl
+            r1, first = load(data)
+            r2, second = load(data)                                      # a second, independent load of the same file
+            reads = [r1, r2]
+            compare("first load", [f.get_state() for f in first], range(len(first)))
+            v = plan["victim"]
+            applied = []
+            if len(first) == len(flows):
+                for op in plan["ops"]:
+                    try:
+                        apply_hist_op(op, first[v], donors[v], plan["y"]); applied.append(op)
+                    except CaseTimeout: raise
+                    except Exception as e:      # the action itself failed on this flow type: not what is examined here
+                        applied.append(op + ":" + type(e).__name__)
+                others = [j for j in range(len(flows)) if j != v]
+                # the flows that were not touched, as they stand in memory
+                compare("other flows of the same load, after the change", [first[j].get_state() for j in others], others)
+                compare("flows of a second load, after the change", [f.get_state() for f in second], range(len(second)))
+                # saved again and reloaded
+                d2, _ = write_flows([first[j] for j in others])
+                r3, again = load(d2); reads.append(r3)
+                if r3[0] == len(others):
+                    compare("other flows saved and reloaded after the change", [f.get_state() for f in again], others)
+                else:
+                    checks.append(["other flows saved and reloaded after the change", -1, False, f"read back {r3}"])
+                # the original file, read once more in the same process
+                r4, third = load(data); reads.append(r4)
+                if r4[0] == len(flows):
+                    compare("the original file read again after the change", [f.get_state() for f in third], range(len(third)))
+                else:
+                    checks.append(["the original file read again after the change", -1, False, f"read back {r4}"])
+            return {"n": len(flows), "reads": reads, "checks": checks, "ops": applied, "victim": v,
+                    "types": [f.type for f in flows], "backups": [f._backup is not None for f in flows]}
         if k == "mut":
             data = self.mut_data(case)
             if case.get("file"):
@@ -957,6 +1118,15 @@ class Check(PropertyCheck):
                     fails.append(f"second save/load generation differs: {obs['read2']}")
         elif k == "mut":
             reader_ok(obs["read"])
+        elif k == "hist":
+            # "saving them to a flow file and loading it back yields flows with identical state in the same order" — for every
+            # flow of the file, whatever was done to ANOTHER loaded flow in the meantime: state read back == state written
+            for rd in obs["reads"]: reader_ok(rd)
+            if obs["reads"][0] != [obs["n"], "clean"]:
+                fails.append(f"wrote {obs['n']} flows, read back {obs['reads'][0]}")
+            for stage, j, ok, diff in obs["checks"]:
+                if not ok:
+                    fails.append(f"{stage}: flow #{j} no longer has the state that was written ({diff}); changed flow #{obs['victim']} by {obs['ops']}")
         return fails
 
     # ---- model tie ---------------------------------------------------------------------------
@@ -1002,6 +1172,8 @@ class Check(PropertyCheck):
             allhex = "".join(h for h in obs["records_hex"] if h != "-") or "-"
             out.append(f"read {BIG} {D_NORMAL} {'o' * obs['n']} {allhex}")
             return out
+        if k == "hist":
+            return None          # histories are judged by the oracle alone (the codec/reader tie runs on the other kinds)
         if k == "mut":
             if obs["data_hex"] is None or case.get("file"): return None
             return [f"read {BIG} {D_NORMAL} {obs['outcomes']} {obs['data_hex']}"]
@@ -1092,6 +1264,10 @@ class Check(PropertyCheck):
             for sp in case["specs"]: out.append("flow:" + sp["t"] + (":stock" if sp.get("plain") else ""))
         elif k == "deep":
             out.append("deep:%s:%s" % (obs["entry"], obs["res"][0] if obs["res"][0] == "ok" else obs["res"][1]))
+        elif k == "hist":
+            for op in obs["ops"]: out.append("hist:" + op)
+            out.append("hist:victim-has-backup:%s" % obs["backups"][obs["victim"]])
+            for t in obs["types"]: out.append("hist:flow:" + t)
         return out
 
     def describe(self, case, obs):
